@@ -68,8 +68,20 @@ paths:
         content:
           application/json:
             schema: {$ref: '#/components/schemas/Animal'}
+          application/json; charset=utf-8:
+            schema: {$ref: '#/components/schemas/Pet'}
+          application/json;charset=UTF-8:
+            schema: {$ref: '#/components/schemas/Dog'}
+          Application/JSON:
+            schema: {$ref: '#/components/schemas/Cat'}
       responses:
         "204": {description: ok}
+        "200":
+          description: the media type names differ only by parameters and case
+          content:
+            application/json; charset=utf-8: {schema: {$ref: '#/components/schemas/Pet'}}
+            application/json: {schema: {$ref: '#/components/schemas/Animal'}}
+            application/JSON: {schema: {$ref: '#/components/schemas/Cat'}}
     delete:
       security: [{keyB: []}, {bearer: []}]
       responses:
